@@ -326,10 +326,12 @@ func New(label string, o Options, init func(w *World)) (w *World, err error) {
 		}
 	}()
 
-	w.dir, err = os.MkdirTemp("/dev/shm", "verif-irworld-")
+	sweepOnce.Do(sweepStale)
+	w.dir, err = os.MkdirTemp("/dev/shm", fmt.Sprintf("verif-irworld-%d-", os.Getpid()))
 	if err != nil {
 		return nil, err
 	}
+	live.Store(w, struct{}{})
 	wpath := filepath.Join(w.dir, "wallet.json")
 	wl, err := wallet.NewWallet(wpath)
 	if err != nil {
@@ -409,8 +411,36 @@ func (w *World) Start() error {
 	return w.StartErr
 }
 
+var (
+	live      sync.Map // *World -> struct{}: worlds not yet closed
+	sweepOnce sync.Once
+)
+
+// sweepStale removes scratch directories left by irworld processes that no longer exist
+// (a check that ends through a fatal harness error cannot run its clean-up).
+func sweepStale() {
+	ds, _ := filepath.Glob("/dev/shm/verif-irworld-*")
+	for _, d := range ds {
+		var pid int
+		if _, err := fmt.Sscanf(filepath.Base(d), "verif-irworld-%d-", &pid); err != nil || pid <= 0 {
+			continue
+		}
+		if _, err := os.Stat(fmt.Sprintf("/proc/%d", pid)); os.IsNotExist(err) {
+			os.RemoveAll(d)
+		}
+	}
+}
+
+// CloseAll closes every world that is still open (call before the check exits).
+func CloseAll() {
+	live.Range(func(k, _ any) bool { k.(*World).Close(); return true })
+}
+
 // Close releases the world's resources.
 func (w *World) Close() {
+	if _, open := live.LoadAndDelete(w); !open && w.dir != "" {
+		return
+	}
 	if w.Srv != nil {
 		w.Srv.Stop()
 	}
